@@ -85,6 +85,39 @@ def run_replay(path, timeout=600):
     return None, out
 
 
+def _uf_apps(terms, names):
+    seen, out = set(), []
+    stack = list(terms)
+    while stack:
+        t = stack.pop()
+        i = t.get_id()
+        if i in seen:
+            continue
+        seen.add(i)
+        if z3.is_app(t):
+            d = t.decl()
+            if d.kind() == z3.Z3_OP_UNINTERPRETED and t.num_args() > 0 and d.name() in names:
+                out.append(t)
+            stack.extend(t.children())
+    return out
+
+
+def _uf_names(t, seen=None, acc=None):
+    if seen is None:
+        seen, acc = set(), set()
+    i = t.get_id()
+    if i in seen:
+        return acc
+    seen.add(i)
+    if z3.is_app(t):
+        d = t.decl()
+        if d.kind() == z3.Z3_OP_UNINTERPRETED and t.num_args() > 0:
+            acc.add(d.name())
+        for c in t.children():
+            _uf_names(c, seen, acc)
+    return acc
+
+
 _LADDER_CACHE = {}
 
 
@@ -139,6 +172,16 @@ def discharge(check_id, job, pr, out, replay_kind, describe=None, timeout_ms=400
         verdict = None
         tries = 0
         acons, agoal = None, None
+        if meta.get("rewrite"):
+            # rewriting with equalities that are themselves among the path's constraints (sound: equals for equals)
+            rw = meta["rewrite"]
+            eqs = [l == r for (l, r) in rw]
+            acons = [z3.substitute(c, *rw) for c in (light if light is not None else cons)] + eqs
+            agoal = z3.substitute(goal, *rw)
+            drop = set(meta.get("drop_ufs") or [])
+            if drop:
+                # forget every constraint that talks about the named uninterpreted functions (dropping constraints is sound)
+                acons = [c for c in acons if not (_uf_names(c) & drop)]
         if meta.get("abstract") and all(r in done_ok for r in meta.get("requires", [])):
             # sound over-approximation: chosen sub-terms become fresh reals constrained only by lemmas that
             # earlier obligations of this path have established; unsat of the abstraction implies unsat of the original
@@ -149,7 +192,24 @@ def discharge(check_id, job, pr, out, replay_kind, describe=None, timeout_ms=400
         while True:
             t0 = time.time()
             v = None
-            if meta.get("fp") and tries == 0:
+            if meta.get("polylin") and tries == 0 and all(r in done_ok for r in meta["polylin"].get("requires", [])):
+                # linearisation by monomial abstraction (vf/polylin.py): sound, decided by z3's linear arithmetic
+                from . import polylin
+                pl = meta["polylin"]
+                base_c = (acons if acons is not None else (light if light is not None else cons)) + list(pl.get("lemmas", []))
+                base_g = agoal if agoal is not None else goal
+                ranges = list(pl.get("var_ranges", []))
+                for app in _uf_apps(base_c + [base_g], set(pl.get("uf_ranges", {}).keys())):
+                    lo, hi = pl["uf_ranges"][app.decl().name()]
+                    ranges.append((app, lo, hi))
+                v, info = polylin.prove(base_c, base_g, ranges)
+                out.d["queries"] += 1
+                model = None
+                info["solver"] = "z3-5.1.0 LRA after monomial abstraction (%s monomials)" % info.get("monomials")
+                info["time_s"] = 0
+                if v != "unsat":
+                    v = None
+            if v is None and meta.get("fp") and tries == 0:
                 from . import fpprove
                 v, info = fpprove.prove(cons, goal)
                 out.d["queries"] += info.get("queries", 0)
